@@ -53,28 +53,33 @@ def run_op(tbl, op, arg, variant):
     # variant twin: the same table twice, as two resources - each resource is processed on its own (nothing a step has
     # seen in one resource may influence what it does to the next one)
     twin = bool(variant.get('twin'))
+    only = variant.get('only') if twin else None          # 0 / -1: the step is restricted to the first / the last of the two resources
+    selkw = {} if only is None else dict(resources=only)
     src = tuple_source(([('t0', [(f, 'integer') for f in FIELDS], real_rows(tbl))] if twin else []) +
                        [('t', [(f, 'integer') for f in FIELDS], real_rows(tbl))])
     if op == 'filter':
         if arg['kind'] == 'callable':
-            step = DF.filter_rows(condition=lambda r: r['a'] != -1)
+            step = DF.filter_rows(condition=lambda r: r['a'] != -1, **selkw)
         else:
             alts = [{x['f']: py(x['v'])} for x in arg['alts']]
             if variant.get('merged') and len({x['f'] for x in arg['alts']}) == len(arg['alts']):
                 alts = [{x['f']: py(x['v']) for x in arg['alts']}]          # one dict with several fields: still any-of
-            step = DF.filter_rows(**{arg['kind']: alts})
+            step = DF.filter_rows(**{arg['kind']: alts}, **selkw)
         links = [src, step]
     elif op == 'dedup':
-        links = [src] + ([DF.set_primary_key(list(arg))] if arg else []) + [DF.deduplicate()] * (2 if variant.get('twice') else 1)
+        links = [src] + ([DF.set_primary_key(list(arg))] if arg else []) + [DF.deduplicate(**selkw)] * (2 if variant.get('twice') else 1)
     else:
         uf = []
         all_lit_const = all(e['pat']['t'] == 'lit' and e['key'] == 'const' for e in arg)
         regex = not (all_lit_const and variant.get('noregex'))
+        listkey = bool(all_lit_const and variant.get('listkey'))
         for e in arg:
             name = e['pat']['name'] if e['pat']['t'] == 'lit' else e['pat']['prefix'] + '(.)'
             keyval = {'const': 'K', 'name': '\\g<0>', 'group': '\\1'}[e['key']]
+            if listkey and e['key'] == 'const':
+                keyval = ['K']            # the constant key "K" bound to a container value: every emitted row gets a key value of its own
             uf.append(dict(name=name, keys=dict(k=keyval)))
-        links = [src, DF.unpivot(uf, [dict(name='k', type='string')], dict(name='v', type='integer'), regex=regex)]
+        links = [src, DF.unpivot(uf, [dict(name='k', type='array' if listkey else 'string')], dict(name='v', type='integer'), regex=regex, **selkw)]
     if variant.get('preused'):
         from ..common import preuse
         preuse(links[1:], lambda: tuple_source(([('t0', [(f, 'integer') for f in FIELDS], real_rows(tbl))] if twin else []) +
@@ -82,6 +87,21 @@ def run_op(tbl, op, arg, variant):
     with contextlib.redirect_stdout(io.StringIO()):
         ds = Flow(*links).datastream()
         streams = [[dict(r) for r in res] for res in ds.res_iter]
+        if op == 'unpivot' and listkey:
+            for st in streams:
+                ks = [r_['k'] for r_ in st if isinstance(r_.get('k'), list)]
+                if len({id(x) for x in ks}) != len(ks):
+                    raise AssertionError('rows emitted by unpivot share one mutable key object')
+                for r_ in st:
+                    if r_.get('k') == ['K']:
+                        r_['k'] = 'K'          # back to the model's vocabulary
+        if only is not None:
+            # the selected resource is judged as usual, the other one must be exactly what went in
+            si = 0 if only == 0 else 1
+            if len(streams) != 2 or streams[1 - si] != real_rows(tbl) or \
+                    [f['name'] for f in ds.dp.descriptor['resources'][1 - si]['schema']['fields']] != list(FIELDS):
+                raise AssertionError('the resource the step was NOT asked to process changed: %r' % (streams[1 - si][:3],))
+            return streams[si], [f['name'] for f in ds.dp.descriptor['resources'][si]['schema']['fields']]
         rows = streams[-1]
         fields = [f['name'] for f in ds.dp.descriptor['resources'][-1]['schema']['fields']]
         if twin and (len(streams) != 2 or streams[0] != rows or
@@ -157,7 +177,7 @@ def run():
     setup_repo()
     r = rng(PROP)
     cases = model(rep, t)
-    items = [dict(case=c, variant=dict(merged=r.random() < 0.5, twice=r.random() < 0.5, noregex=r.random() < 0.5, twin=r.random() < 0.35, preused=r.random() < 0.3)) for c in cases]
+    items = [dict(case=c, variant=dict(merged=r.random() < 0.5, twice=r.random() < 0.5, noregex=r.random() < 0.5, twin=r.random() < 0.35, preused=r.random() < 0.3, only=r.choice([None, None, 0, -1]), listkey=r.random() < 0.5)) for c in cases]
     res = pmap(replay_case, items, chunksize=32)
     errs = harness_errors(res)
     if errs:
